@@ -56,6 +56,11 @@ def session_tree(rng: random.Random, nnodes: int, nops: int, closed: bool = True
             n = rng.choice([0, 1, 5, 24, 24, 25, 48, 49, 100, 144])
             if rng.random() < 0.15:
                 ops.append(f"{src} dflt write {addr_of(dst)} {typ} {rbytes(rng, n)}")
+            elif rng.random() < 0.15:
+                # traffic_direct: the frame is handed to the given node first (physically to the destination itself,
+                # "logically" to another node, or to the multicast address)
+                direct = rng.choice([addr_of(dst), addr_of(rng.choice(tree)), 0o100, 0, 1, 0o5, 0o15])
+                ops.append(f"{src} write {addr_of(dst)} {typ} {rbytes(rng, min(n, 24))} {direct}")
             else:
                 ops.append(f"{src} write {addr_of(dst)} {typ} {rbytes(rng, n)} 56")
         elif x < 0.72:
